@@ -342,6 +342,10 @@ var c19UnsetProgs = [][2]string{
 	{"BEGIN { print match (nosuch) { z => z is unknown } }", "true\n"},
 	{"BEGIN { print match (nosuch) { 1, 2 => 'num' } is null }", "true\n"},
 	{"{ print match ($.missing) { 0 => 'zero', null => 'null', z => 'any' } }", "null\n"},
+	// a match nested in a case body that binds the SAME name again: the outer binding is back afterwards
+	{"BEGIN { print match ([1, [2, 3]]) { [a, b] => (match (b) { [a, c] => a + c }) + a } }", "6\n"},
+	{"BEGIN { print match (7) { v => [match (8) { v => v }, v, match ([v]) { [v] => v + 1 }, v] } }", "[8, 7, 8, 7]\n"},
+	{"BEGIN { v = 'g'; x = match (1) { v => match (2) { v => v } }\nprint x, v }", "2 g\n"},
 	// names of builtins and functions used as pattern names are ordinary bindings, also one level down
 	{"BEGIN { print match (5) { num => match (1) { one => num + one } } }", "6\n"},
 	{"BEGIN { print match (2) { json => [json, match (0) { z => json }] } }", "[2, 2]\n"},
